@@ -445,6 +445,9 @@ func (r *runner) compareFile(fs *fileSpec, nat *oracle.Result) {
 			continue
 		}
 		n++
+		if n%9973 == 1 {
+			ctx.Sample(map[string]any{"cell": g.cell(l.X, l.Y).describe(), "result": l.Value}, 3)
+		}
 		xv, yv, _ := g.operands(l.X, l.Y)
 		if nontrivial(g, xv, yv, l.Value) {
 			ctx.Nontrivial(l.Key)
@@ -541,8 +544,10 @@ func run(ctx *vf.Ctx) {
 		return
 	}
 	ids := make([]string, len(mine))
+	srcs := make([]string, len(mine))
 	for i, f := range mine {
 		src := prepare(ctx, f, t)
+		srcs[i] = src
 		if errs := typeCheck(src); len(errs) > 0 {
 			ctx.Inconclusive("generator bug: file %s-%d is rejected by go/types: %s", f.Name, f.Idx, strings.Join(errs, "; "))
 			return
@@ -559,6 +564,11 @@ func run(ctx *vf.Ctx) {
 	ngroups, ncells := 0, 0
 	for i, f := range mine {
 		nat := batch.Result(ids[i])
+		if nat != nil && nat.Built && nat.TimedOut {
+			// the native run has a fixed wall-clock limit: try once more (a
+			// comment makes it a new program for the batch)
+			_, nat = batch.Ensure(oracle.Single(srcs[i] + "\n// second run\n"))
+		}
 		switch {
 		case nat == nil || !nat.Built:
 			msg := "no result"
@@ -576,6 +586,9 @@ func run(ctx *vf.Ctx) {
 		ngroups += len(f.Groups)
 		for _, g := range f.Groups {
 			ncells += g.cells(len(g.RX))
+			if g.Excl != "" {
+				ctx.Excluded(g.Excl)
+			}
 		}
 	}
 	for _, sig := range r.order {
@@ -601,9 +614,6 @@ func replay(ctx *vf.Ctx, data json.RawMessage) (string, string) {
 	var c Case
 	if err := json.Unmarshal(data, &c); err != nil {
 		return "bad replay file: " + err.Error(), "harness"
-	}
-	if errs := typeCheck(c.Src); len(errs) > 0 {
-		return "", "" // not a valid program: nothing to demand
 	}
 	batch, err := oracle.NewBatch(filepath.Join(ctx.Scratch, "oracle"))
 	if err != nil {
@@ -659,7 +669,7 @@ func init() {
 		ID:    "C02",
 		Level: "exploration",
 		Rule: "case = one generated file; evaluation = one cell (operator, operand kind(s), operand forms, result context, operand values) whose printed result is compared with the natively compiled program's; " +
-			"the cross product operator {+ - * / % & | ^ &^ << >> == != < <= > >= && || unary + - ^ ! ++ -- and the op-assign forms} x applicable kind x forms {variable, literal, typed and untyped named constant; not constant-constant} x context {assign, define, op-assign, return, if, interface} x boundary set is enumerated completely (quick: six values per kind, thorough: the full sets plus 8 rapid-drawn operands per function group), plus all numeric conversions, int->string, string<->[]byte, string<->[]rune; " +
+			"the cross product operator {+ - * / % & | ^ &^ << >> == != < <= > >= && || unary + - ^ ! ++ -- and the op-assign forms} x applicable kind x forms {variable, literal, typed and untyped named constant; not constant-constant} x context {assign, define, op-assign, return, if, interface} x boundary set is enumerated completely (quick: six to eight values per kind and 2 rapid-drawn operands per function group, thorough: the full sets of 15 to 35 values plus 8 rapid-drawn operands per function group; shift counts 0, 1, w-1, w, w+1, 200, the count kind's maximum and, for signed count kinds, -1 and the minimum), plus all numeric conversions, int->string, string<->[]byte, string<->[]rune; " +
 			"non-trivial = the native result is a panic, or the integer result differs from the infinitely precise result (wrap, truncation, sign extension), or an operand is a boundary value (min, min+1, max-1, max, -1, neighbour of a power of two >= 16, NaN, Inf, -0, denormal, |x| >= 2^24-1 (float32) / 2^53-1 (float64), non-ASCII or empty string); distinct by cell id and operand indices",
 		Assumptions: []string{
 			"the installed Go toolchain (amd64: int, uint and uintptr are 64 bits wide) is the reference",
